@@ -1,6 +1,8 @@
 //! Parsers for the Turtle-familt of RDF concrete syntaxes,
 //! based on [`rio_turtle`].
 
+mod _checked;
+pub use _checked::IriCheckedSource;
 pub mod gnq;
 pub mod gtrig;
 pub mod nq;
